@@ -346,7 +346,49 @@ def case_driver(col, p):
     col.distinct('nontrivial', ('driver', d, G, p['grid'], tuple(nus), tuple(gammas), T, delj, tuple(p.get('units', ()))))
 
 
-CASES = {'kernel': case_kernel, 'precalc': case_precalc, 'tridiag': case_tridiag, 'driver': case_driver}
+def case_driver_history(col, p):
+    """constant-parameter drivers called in sequence on different grids of the SAME length (and again on the first): every call must equal
+    the reference for its own grid (precomputed coefficients / normalisation factors must not leak between calls)"""
+    from dadi import Integration
+    d, G = p['d'], p['G']
+    old = (Integration.timescale_factor, Integration.use_delj_trick)
+    Integration.timescale_factor, Integration.use_delj_trick = 10.0, False
+    try:
+        nus = [0.7, 2.0, 1.3][:d]
+        gammas = [-3.0, 2.0, 0.0][:d]
+        hs = [0.3, 0.5, 0.5][:d]
+        mig = {(i, j): 0.4 + 0.3 * i + 0.1 * j for i in range(d) for j in range(d) if i != j}
+        T = 0.01
+        rng = np.random.RandomState(3)
+        phi0 = rng.uniform(0.1, 1.0, size=(G,) * d)
+        n = 0
+        for order in itertools.permutations(['E', 'D', 'U', 'D2']):
+            seq = list(order) + [order[0]]
+            for gk in seq:
+                xx = space.grid(gk, G, p['seed'])
+                kw = {}
+                if d == 1:
+                    kw = dict(nu=nus[0], gamma=gammas[0], h=hs[0], theta0=1.0)
+                else:
+                    for k in range(d):
+                        kw['nu%d' % (k + 1)] = nus[k]; kw['gamma%d' % (k + 1)] = gammas[k]; kw['h%d' % (k + 1)] = hs[k]
+                    for (i, j), v in mig.items():
+                        kw['m%d%d' % (i + 1, j + 1)] = v
+                out = _driver(d)(phi0.copy(), xx, T, **kw)
+                col.tick(transitions=1)
+                n += 1
+                ref = _ref_step(phi0, xx, d, T, nus, mig if d > 1 else {}, gammas, hs, 1.0, 0)
+                err = float(np.abs(out - ref).max())
+                if not err <= 1e-10 * max(1.0, float(np.abs(ref).max())):
+                    col.violation('C02:driver%d:const:depends_on_call_history' % d, dict(p, order=seq, at=gk), {'maxerr': err})
+                    break
+        col.tick(states=n, traces=n)
+    finally:
+        Integration.timescale_factor, Integration.use_delj_trick = old
+    col.distinct('nontrivial', ('driver_history', d, G))
+
+
+CASES = {'driver_history': case_driver_history, 'kernel': case_kernel, 'precalc': case_precalc, 'tridiag': case_tridiag, 'driver': case_driver}
 
 
 def _dispatch(col, case):
@@ -418,7 +460,7 @@ def run(ctx):
         for nus, gammas, hs, mig, theta0 in ((nus_a, gam_a, hs_a, mig_a, 1.0), (nus_b, gam_b, hs_b, mig_0, 2.5), (nus_b, [0.0] * d, hs_b, mig_a, 0.5)):
             for tf, T in ((1e-3, 1e-5), (10.0, 0.05)):
                 for delj in (0, 1):
-                    for grid in (('E', 'D') if not ctx.quick else ('E',)):
+                    for grid in (('E', 'D') if not ctx.quick else ('D',)):      # asymmetric grid in quick (default grid has dx[0]==dx[-1])
                         paramsets.append(dict(nus=nus, gammas=gammas, hs=hs, mig=mig, theta0=theta0, T=T, tf=tf, delj=delj, grid=grid))
         for ps in paramsets:
             chunk = 64 if d <= 3 else 27
@@ -432,6 +474,8 @@ def run(ctx):
                         cases.append(cc)
                 else:
                     cases.append(c)
+    for d, G in ((1, 6), (2, 5), (3, 4)):
+        cases.append({'kind': 'driver_history', 'd': d, 'G': G, 'seed': ctx.seed})
     from mc.evidence import Collector
     a, b = Collector(), Collector()
     _dispatch(a, cases[0]); _dispatch(b, cases[0])
